@@ -86,6 +86,8 @@ def head_ops(s):
     k = s[0]
     if k in ('ret', 'yield'):
         return ops(s[1])
+    if k == 'callFeed':
+        return ops(s[2])
     if k == 'callInsert':
         return ops(s[1]) + ops(s[2])
     if k == 'retCall':
@@ -308,7 +310,7 @@ class MethodTranslator:
         return self.finish(params, body)
 
 
-BINDERS = ('assign', 'forKeys', 'pop', 'assignNewList', 'forIn', 'appendVar')
+BINDERS = ('assign', 'forKeys', 'pop', 'assignNewList', 'forIn', 'appendVar', 'callFeed')
 
 
 def _walk_vars(s):
@@ -377,8 +379,210 @@ def enum_values(kevent_src, cls_name):
     return {}
 
 
+# ------------------------------------------------------------------------------------------------------------
+# TracesParser.feed_generator and TracesParser.__init__ (IR of Model/PyIRTp)
+# ------------------------------------------------------------------------------------------------------------
+
+FAMILIES = ['bsd', 'dyld', 'fsystem', 'mach', 'perf', 'trace', 'turnstile']      # = tools/gen_decoders.FAMILIES (Decoder.family)
+FAMILY_PACKAGE = 'pykdebugparser.trace_handlers.'
+# the attributes `__init__` binds, in the order of the normal form (Model/PyIRTp.IAttr)
+INIT_ATTRS = ['trace_codes', 'on_going_events', 'on_going_traces', 'global_strings', 'threads_pids', 'pids_names',
+              'tids_names', 'last_data_newthread', 'last_data_exec', 'handlers']
+INIT_TAG = {'trace_codes': '.traceCodes', 'on_going_events': '.onGoingEvents', 'on_going_traces': '.onGoingTraces',
+            'global_strings': '.globalStrings', 'threads_pids': '.threadsPids', 'pids_names': '.pidsNames',
+            'tids_names': '.tidsNames', 'last_data_newthread': '.lastDataNewthread', 'last_data_exec': '.lastDataExec',
+            'handlers': '.handlers'}
+OWN_ATTRS = tuple(INIT_ATTRS) + ('qualifiers_actions', 'feed', 'feed_generator', 'parse_event_list', '_feed_start_event',
+                                 '_feed_end_event', '_feed_single_event')
+
+
+class GenTranslator(MethodTranslator):
+    """The same symbolic evaluation (aliases inlined, `not` swaps the branches, continuations) over the subset of
+    Model/PyIRTp.GStmt: `for v in <var>`, `v = self.feed(<var>)`, `if <x> is [not] None`, `yield <var>`."""
+
+    def expr(self, n, env):
+        if isinstance(n, ast.Constant) and n.value is None:
+            return ('none',)
+        if isinstance(n, ast.Name):
+            return env.m.get(n.id, ('unsupported', self.text(n)))
+        if isinstance(n, ast.Compare) and len(n.ops) == 1 and isinstance(n.ops[0], (ast.IsNot, ast.Is)) \
+                and isinstance(n.comparators[0], ast.Constant) and n.comparators[0].value is None:
+            a = self.expr(n.left, env)
+            return ('isNotNone', a) if isinstance(n.ops[0], ast.IsNot) else ('not', ('isNotNone', a))
+        if isinstance(n, ast.UnaryOp) and isinstance(n.op, ast.Not):
+            return ('not', self.expr(n.operand, env))
+        return ('unsupported', self.text(n))
+
+    def call(self, n, env):
+        return None
+
+    def cond(self, c, env, then_fn, else_fn):
+        if c[0] == 'not':
+            return self.cond(c[1], env, else_fn, then_fn)
+        if c[0] != 'isNotNone':            # the truth value of a trace object is not modelled
+            c = ('unsupported', 'condition outside the subset: ' + (c[1] if c[0] == 'unsupported' else str(c[0])))
+        return ('ite', c, then_fn(env.copy()), else_fn(env.copy()))
+
+    def special(self, st, env, nxt):
+        if isinstance(st, ast.Expr) and isinstance(st.value, ast.Yield):
+            if st.value.value is None:
+                return ('unsupported', self.text(st))
+            return ('yield', self.expr(st.value.value, env), nxt(env))
+        if isinstance(st, ast.Assign) and len(st.targets) == 1 and isinstance(st.targets[0], ast.Name) \
+                and st.targets[0].id != 'self' and isinstance(st.value, ast.Call):
+            c = st.value
+            if isinstance(c.func, ast.Attribute) and isinstance(c.func.value, ast.Name) and c.func.value.id == 'self' \
+                    and 'self' not in env.m and c.func.attr == 'feed' and len(c.args) == 1 and not c.keywords \
+                    and not isinstance(c.args[0], ast.Starred):
+                a = self.expr(c.args[0], env)
+                self.bind(st.targets[0].id, env)
+                return ('callFeed', st.targets[0].id, a, nxt(env))
+            return ('unsupported', self.text(st))
+        if isinstance(st, ast.For):
+            if not (isinstance(st.target, ast.Name) and not st.orelse):
+                return ('unsupported', self.text(st))
+            it = self.expr(st.iter, env)
+            benv = env.copy()
+            self.bind(st.target.id, benv)
+            body = self.block(st.body, benv, lambda e: ('done',))
+            self.bind(st.target.id, env)
+            return ('forIn', st.target.id, it, body, nxt(env))
+        if isinstance(st, (ast.Return, ast.Expr)) and not (isinstance(st, ast.Expr) and isinstance(st.value, ast.Constant)):
+            return ('unsupported', self.text(st))
+        return None
+
+
+_G_STMT = {'done', 'forIn', 'callFeed', 'ite', 'yield', 'unsupported'}
+_G_EXPR = {'none', 'var', 'isNotNone', 'unsupported'}
+
+
+def _g_sanitize(s, stmt=True):
+    """nodes the generator IR does not have (a statement / expression of the pairing subset)"""
+    if not isinstance(s, tuple):
+        return s
+    if s[0] == 'unsupported':
+        return s
+    if stmt:
+        if s[0] not in _G_STMT:
+            return ('unsupported', 'outside the generator subset: ' + s[0])
+        if s[0] == 'forIn':
+            return (s[0], s[1], _g_sanitize(s[2], False), _g_sanitize(s[3]), _g_sanitize(s[4]))
+        if s[0] == 'callFeed':
+            return (s[0], s[1], _g_sanitize(s[2], False), _g_sanitize(s[3]))
+        if s[0] == 'ite':
+            return (s[0], _g_sanitize(s[1], False), _g_sanitize(s[2]), _g_sanitize(s[3]))
+        if s[0] == 'yield':
+            return (s[0], _g_sanitize(s[1], False), _g_sanitize(s[2]))
+        return s
+    if s[0] not in _G_EXPR:
+        return ('unsupported', 'outside the generator subset: ' + s[0])
+    return (s[0],) + tuple(_g_sanitize(x, False) for x in s[1:])
+
+
+def translate_feed_generator(src, fn):
+    """`TracesParser.feed_generator` -> (params, body) over Model/PyIRTp.GStmt"""
+    if fn is None:
+        return 0, ('unsupported', 'method feed_generator not found')
+    a = fn.args
+    if (fn.decorator_list or a.vararg or a.kwarg or a.kwonlyargs or a.defaults or a.posonlyargs
+            or not a.args or a.args[0].arg != 'self' or isinstance(fn, ast.AsyncFunctionDef)):
+        return 0, ('unsupported', 'signature of feed_generator')
+    mt = GenTranslator(src, fn, {})
+    params = [x.arg for x in a.args[1:]]
+    body = mt.block(fn.body, Env({p_: ('var', p_) for p_ in params}), lambda e: ('done',))
+    p, b = mt.finish(params, body)
+    return p, _g_sanitize(b)
+
+
+def family_imports(tree, notes):
+    """module-level names bound by `from pykdebugparser.trace_handlers.<family> import handlers [as name]` -> family; a name
+    bound again later is dropped (and noted)"""
+    names = {}
+    for node in tree.body:
+        if isinstance(node, ast.ImportFrom) and node.level == 0 and (node.module or '').startswith(FAMILY_PACKAGE) \
+                and node.module[len(FAMILY_PACKAGE):] in FAMILIES:
+            for al in node.names:
+                bound = al.asname or al.name
+                if al.name == 'handlers':
+                    if bound in names:
+                        notes.append('module-level name %s is bound twice' % bound)
+                    names[bound] = node.module[len(FAMILY_PACKAGE):]
+                elif bound in names:
+                    notes.append('module-level name %s is rebound' % bound)
+                    del names[bound]
+            continue
+        bound = []
+        if isinstance(node, (ast.Import, ast.ImportFrom)):
+            bound = [(al.asname or al.name).split('.')[0] for al in node.names]
+        elif isinstance(node, (ast.FunctionDef, ast.AsyncFunctionDef, ast.ClassDef)):
+            bound = [node.name]
+        else:
+            bound = [t.id for t in ast.walk(node) if isinstance(t, ast.Name) and isinstance(t.ctx, (ast.Store, ast.Del))]
+        for b in bound:
+            if b in names:
+                notes.append('module-level name %s is rebound' % b)
+                del names[b]
+    return names
+
+
+def translate_tp_init(src, tree, fn, notes):
+    """`TracesParser.__init__` -> (params, [(attr tag, value)] sorted by attribute, [family] in source order).
+    value: ('param', k) | ('emptyDict',) | ('unsupported', text)."""
+    text = lambda n: ' '.join((ast.get_source_segment(src, n) or ast.dump(n)).split())[:200]   # noqa: E731
+    if fn is None:
+        notes.append('TracesParser.__init__ not found')
+        return 0, [], []
+    a = fn.args
+    if fn.decorator_list or a.vararg or a.kwarg or a.kwonlyargs or a.defaults or a.posonlyargs or not a.args \
+            or a.args[0].arg != 'self':
+        notes.append('signature of TracesParser.__init__')
+        return 0, [], []
+    params = [x.arg for x in a.args[1:]]
+    fams = family_imports(tree, notes)
+    shadowed = set(params) | {n.id for n in ast.walk(tree) if isinstance(n, ast.Name) and isinstance(n.ctx, ast.Store)} \
+        | {n.name for n in ast.walk(tree) if isinstance(n, (ast.FunctionDef, ast.ClassDef))}
+    sets, updates = [], []
+    handlers_made = False
+    for st in _first_docless(fn.body):
+        if isinstance(st, ast.Assign) and len(st.targets) == 1 and _self_attr(st.targets[0], ('qualifiers_actions',)):
+            continue                                      # the dict display: `actions`
+        if isinstance(st, ast.Assign) and len(st.targets) == 1 and _self_attr(st.targets[0], INIT_ATTRS):
+            attr, v = st.targets[0].attr, st.value
+            if isinstance(v, ast.Name) and v.id in params:
+                val = ('param', params.index(v.id))
+            elif (isinstance(v, ast.Dict) and not v.keys) or (
+                    isinstance(v, ast.Call) and isinstance(v.func, ast.Name) and v.func.id == 'dict'
+                    and 'dict' not in shadowed and not v.args and not v.keywords):
+                val = ('emptyDict',)
+            else:
+                val = ('unsupported', text(v))
+            if any(s_[0] == attr for s_ in sets):
+                notes.append('__init__: self.%s is assigned twice' % attr)
+            if attr == 'handlers':
+                if updates:
+                    notes.append('__init__: self.handlers is assigned after an update')
+                handlers_made = val == ('emptyDict',)
+            sets.append((attr, val))
+            continue
+        if isinstance(st, ast.Expr) and isinstance(st.value, ast.Call) and isinstance(st.value.func, ast.Attribute) \
+                and st.value.func.attr == 'update' and _self_attr(st.value.func.value, ('handlers',)) \
+                and len(st.value.args) == 1 and not st.value.keywords and isinstance(st.value.args[0], ast.Name) \
+                and st.value.args[0].id in fams and st.value.args[0].id not in params:
+            if not handlers_made:
+                notes.append('__init__: %s before self.handlers = {}' % text(st))
+            updates.append(fams[st.value.args[0].id])
+            continue
+        notes.append('__init__: ' + text(st))
+    for n in ast.walk(fn):                                # a parameter rebound inside the body is not the caller's object
+        if isinstance(n, ast.Name) and isinstance(n.ctx, (ast.Store, ast.Del)) and n.id in params + ['self']:
+            notes.append('__init__: parameter %s is rebound' % n.id)
+    sets.sort(key=lambda s_: INIT_ATTRS.index(s_[0]))     # independent of each other: the order is not part of the term
+    return len(params), [(INIT_TAG[a_], v) for a_, v in sets], updates
+
+
 def translate_source(repo):
-    """-> (methods: {lean field: (params, body)}, actions: [(value, tag)], notes: [str])"""
+    """-> (methods: {lean field: (params, body)}, actions: [(value, tag)], notes: [str],
+           init: (params, [(attr, value)], [family]), feed_generator: (params, body))"""
     with open(os.path.join(repo, 'pykdebugparser', 'traces_parser.py')) as fd:
         src = fd.read()
     with open(os.path.join(repo, 'pykdebugparser', 'kevent.py')) as fd:
@@ -419,27 +623,17 @@ def translate_source(repo):
             continue
         mt = MethodTranslator(src, fns[py], module_names)
         methods[field] = mt.translate()
-    # __init__: the two tables start empty; the qualifiers_actions dict
+    # __init__: the attribute initialisers and the handler registry (`init`), the qualifiers_actions dict (`actions`)
     init = fns.get('__init__')
-    found_tables = set()
     table = None
     if init is not None:
         for st in ast.walk(init):
-            if isinstance(st, ast.Assign) and len(st.targets) == 1 and isinstance(st.targets[0], ast.Attribute) \
-                    and isinstance(st.targets[0].value, ast.Name) and st.targets[0].value.id == 'self':
-                nm = st.targets[0].attr
-                if nm in ('on_going_events', 'on_going_traces'):
-                    if isinstance(st.value, ast.Dict) and not st.value.keys and nm not in found_tables:
-                        found_tables.add(nm)
-                    else:
-                        notes.append('__init__: self.%s is not initialised once with {}' % nm)
-                if nm == 'qualifiers_actions':
-                    if table is not None:
-                        notes.append('__init__: self.qualifiers_actions assigned twice')
-                    table = st.value
-    for nm in ('on_going_events', 'on_going_traces'):
-        if nm not in found_tables:
-            notes.append('__init__: self.%s = {} not found' % nm)
+            if isinstance(st, ast.Assign) and len(st.targets) == 1 and _self_attr(st.targets[0], ('qualifiers_actions',)):
+                if table is not None:
+                    notes.append('__init__: self.qualifiers_actions assigned twice')
+                table = st.value
+    init_def = translate_tp_init(src, tree, init, notes)
+    feed_gen = translate_feed_generator(src, fns.get('feed_generator'))
     quals = enum_values(ksrc, 'DgbFuncQual') if enum_ok else {}
     if not enum_ok:
         notes.append('DgbFuncQual is not imported from pykdebugparser.kevent')
@@ -466,10 +660,14 @@ def translate_source(repo):
     # any other store to the attributes the methods read, anywhere in the class
     for n in ast.walk(cls) if cls is not None else []:
         if isinstance(n, ast.Attribute) and isinstance(n.ctx, (ast.Store, ast.Del)) and isinstance(n.value, ast.Name) \
-                and n.value.id == 'self' and n.attr in ('qualifiers_actions', 'on_going_events', 'on_going_traces') \
+                and n.value.id == 'self' and n.attr in OWN_ATTRS \
                 and not (init is not None and any(n is x for x in ast.walk(init))):
             notes.append('self.%s is assigned outside __init__' % n.attr)
-    return methods, actions, notes
+    for n in cls_body:                          # a hook that would give attribute stores / reads another meaning
+        if isinstance(n, ast.FunctionDef) and n.name in ('__getattr__', '__getattribute__', '__setattr__', '__new__',
+                                                         '__init_subclass__', '__iter__'):
+            notes.append('TracesParser.%s: an attribute / construction hook' % n.name)
+    return methods, actions, notes, init_def, feed_gen
 
 
 # ------------------------------------------------------------------------------------------------------------
@@ -896,11 +1094,25 @@ def generate_callstacks(repo, write_if_changed, lean_str):
     return write_if_changed('PyIRCs.lean', '\n'.join(L))
 
 
+def lean_init(init_def, lean_str):
+    params, sets, updates = init_def
+
+    def val(v):
+        if v[0] == 'param':
+            return '.param %d' % v[1]
+        if v[0] == 'emptyDict':
+            return '.emptyDict'
+        return '.unsupported %s' % lean_str(v[1])
+    return ('{ params := %d,\n    sets := [%s],\n    updates := [%s] }'
+            % (params, ', '.join('(%s, %s)' % (a, val(v)) for a, v in sets), ', '.join('.' + f for f in updates)))
+
+
 def generate(repo, write_if_changed, lean_str):
-    methods, actions, notes = translate_source(repo)
-    L = ['import KdVerif.Model.PyIR', 'namespace KdVerif.Gen.PyIR', 'open KdVerif.PyIR', '',
+    methods, actions, notes, init_def, feed_gen = translate_source(repo)
+    L = ['import KdVerif.Model.PyIRTp', 'namespace KdVerif.Gen.PyIR', 'open KdVerif.PyIR KdVerif.PyIRTp', '',
          '/-! `TracesParser.feed` / `parse_event_list` / `_feed_*_event` of pykdebugparser/traces_parser.py, symbolically',
-         '    evaluated from the source text into the IR of `Model/PyIR` (tools/gen_pyir.py). -/', '']
+         '    evaluated from the source text into the IR of `Model/PyIR`; `feed_generator` and `__init__` into the IR of',
+         '    `Model/PyIRTp` (tools/gen_pyir.py). -/', '']
     for _py, field, _tag in METHODS:
         params, body = methods[field]
         L.append('def %s : MethodDef := { params := %d, body :=\n  %s }\n' % (field, params, lean(body, lean_str)))
@@ -908,6 +1120,10 @@ def generate(repo, write_if_changed, lean_str):
     L.append('def actions : List (Nat × Meth) := [' + ', '.join('(%d, %s)' % kv for kv in actions) + ']\n')
     L.append('def prog : Prog := { feed := feed, parseEventList := parseEventList, feedStart := feedStart, '
              'feedEnd := feedEnd, feedSingle := feedSingle, actions := actions }\n')
+    L.append('/-- `feed_generator(self, generator)` -/')
+    L.append('def feedGenerator : GenDef := { params := %d, body :=\n  %s }\n' % (feed_gen[0], lean(feed_gen[1], lean_str)))
+    L.append('/-- `__init__`: the initialisers sorted by attribute, the `self.handlers.update(...)` calls in source order. -/')
+    L.append('def init : InitDef :=\n  %s\n' % lean_init(init_def, lean_str))
     L.append('/-- What the translator could not express outside the method bodies (must be empty). -/')
     L.append('def notes : List String := [' + ', '.join(lean_str(n) for n in notes) + ']\n')
     L += ['end KdVerif.Gen.PyIR', '']
